@@ -941,10 +941,13 @@ func initParamsKeeper(appCodec codec.BinaryCodec, legacyAmino *codec.LegacyAmino
 	paramsKeeper.Subspace(ibchost.ModuleName)
 	paramsKeeper.Subspace(icacontrollertypes.SubModuleName)
 	paramsKeeper.Subspace(icahosttypes.SubModuleName)
-	paramsKeeper.Subspace(cfevestingmoduletypes.ModuleName)
-	paramsKeeper.Subspace(cfesignaturemoduletypes.ModuleName)
-	paramsKeeper.Subspace(cfemintermoduletypes.ModuleName)
-	paramsKeeper.Subspace(cfedistributormoduletypes.ModuleName)
+	// the custom modules keep their parameters in their own stores since v1.2.0; their x/params subspaces remain
+	// for the store migrations and stay reachable by legacy parameter change proposals, so they need their key
+	// tables in every process (a subspace without key table panics on Update, which x/gov calls in EndBlock)
+	paramsKeeper.Subspace(cfevestingmoduletypes.ModuleName).WithKeyTable(cfevestingmoduletypes.ParamKeyTable())         //nolint:staticcheck
+	paramsKeeper.Subspace(cfesignaturemoduletypes.ModuleName).WithKeyTable(cfesignaturemoduletypes.ParamKeyTable())     //nolint:staticcheck
+	paramsKeeper.Subspace(cfemintermoduletypes.ModuleName).WithKeyTable(cfemintermoduletypes.ParamKeyTable())           //nolint:staticcheck
+	paramsKeeper.Subspace(cfedistributormoduletypes.ModuleName).WithKeyTable(cfedistributormoduletypes.ParamKeyTable()) //nolint:staticcheck
 	// this line is used by starport scaffolding # stargate/app/paramSubspace
 
 	return paramsKeeper
